@@ -13,7 +13,7 @@
 EXTENDS SignerAuthProps
 
 CONSTANTS MaxSigs,      \* signatures in a file (<= 4)
-          Tools         \* subset of {"none", "key", "eth", "manual_ok", "manual_bad"}
+          Tools         \* subset of {"none", "key", "eth", "manual_ok", "manual_bad", "manual_spell"}
 
 HL == 2
 NEVER == 99
@@ -34,6 +34,14 @@ BadHashes  == { Txt("short", <<97, 49>>),                  \* one byte less
                 Txt("prefixed_samelen", <<48, 120, 98, 50>>),  \* 0xb2
                 Txt("empty", <<>>),
                 Txt("spaced", <<97, 49, 32, 98, 50>>),       \* "a1 b2": blank-separated bytes
+                \* spellings of the right 2 bytes that are not the plain 4 hex digits (all refused:
+                \* is_hex_string_of_length and len(hash) == 64)
+                Txt("prefixed_upper", <<48, 88, 97, 49, 98, 50>>),     \* 0Xa1b2
+                Txt("lead_ws", <<32, 97, 49, 98, 50>>),
+                Txt("trail_ws", <<97, 49, 98, 50, 32>>),
+                Txt("trail_nl", <<97, 49, 98, 50, 10>>),
+                Txt("odd_extra0", <<97, 49, 98, 50, 48>>),
+                Txt("nonascii", <<97, 1633, 98, 50>>),                 \* ARABIC-INDIC DIGIT ONE for '1'
                 [cls |-> "other", kind |-> "other", s |-> <<>>] }
 
 It(cls, form, val, s) == [cls |-> cls, form |-> form, val |-> val, s |-> s]
@@ -46,7 +54,8 @@ GoodIters == { It("int_0", "int", 0, <<>>), It("int_1", "int", 1, <<>>),
                It("hex_pad", "str", 0, <<48, 120, 48, 49, 48, 50>>),            \* 0x0102
                It("hex_mid", "str", 0, <<48, 120, 49, 48, 50>>),              \* 0x102
                It("hex_max", "str", 0, <<48, 120, 102, 102, 102, 102>>),      \* 0xffff
-               It("hex_max_upper", "str", 0, <<48, 120, 70, 70, 70, 70>>) }   \* 0xFFFF
+               It("hex_max_upper", "str", 0, <<48, 120, 70, 70, 70, 70>>),    \* 0xFFFF
+               It("hex_mixedcase", "str", 0, <<48, 120, 49, 65, 98>>) }       \* 0x1Ab
 BadIters  == { It("int_neg", "int", -1, <<>>), It("int_over", "int", 65536, <<>>),
                It("dec_neg", "str", 0, <<45, 49>>),
                It("dec_over", "str", 0, <<54, 53, 53, 51, 54>>),
@@ -59,6 +68,23 @@ BadIters  == { It("int_neg", "int", -1, <<>>), It("int_over", "int", 65536, <<>>
                It("junk_alpha", "str", 0, <<97, 98, 99>>),                      \* abc
                It("junk_point", "str", 0, <<49, 46, 53>>),                      \* 1.5
                It("junk_empty", "str", 0, <<>>) }
+
+\* spellings of an iteration text the property leaves open; what the unchanged code (Python's int()
+\* after hex_or_decimal_string_to_int) does with each is modelled by PyInt below:
+\*   accepted as 258 (0 for "-0"): sp_lead_ws sp_trail_ws sp_trail_nl sp_plus sp_underscore
+\*                                 sp_nonascii sp_neg_zero sp_hex_trail_ws sp_hex_underscore
+\*   refused: sp_inner_ws sp_hex_lead_ws
+FreeIters == { It("sp_lead_ws", "str", 0, <<32, 50, 53, 56>>),
+               It("sp_trail_ws", "str", 0, <<50, 53, 56, 32>>),
+               It("sp_trail_nl", "str", 0, <<50, 53, 56, 10>>),
+               It("sp_inner_ws", "str", 0, <<50, 32, 53, 56>>),
+               It("sp_plus", "str", 0, <<43, 50, 53, 56>>),
+               It("sp_underscore", "str", 0, <<50, 95, 53, 56>>),
+               It("sp_nonascii", "str", 0, <<1634, 1637, 1640>>),                \* ARABIC-INDIC 258
+               It("sp_neg_zero", "str", 0, <<45, 48>>),
+               It("sp_hex_trail_ws", "str", 0, <<48, 120, 49, 48, 50, 32>>),
+               It("sp_hex_lead_ws", "str", 0, <<32, 48, 120, 49, 48, 50>>),
+               It("sp_hex_underscore", "str", 0, <<48, 120, 49, 95, 48, 50>>) }
 
 \* signatures: 8-byte DER  30 06 02 01 id 02 01 id  as hex text, and malformed variants of it
 Der(id) == <<48, 6, 2, 1, id, 2, 1, id>>
@@ -76,6 +102,27 @@ BadSig(id, kind) ==
       [] kind = "nonhex"  -> [GoodSig(id) EXCEPT ![3] = 122]          \* 'z'
       [] kind = "oddlen"  -> SubSeq(GoodSig(id), 1, 15)
 
+\* spellings of a *valid* DER signature's hex text (id >= 26 so that the text has letters).  The
+\* unchanged code validates and later sends bytes.fromhex(text) of the text it stores verbatim:
+\*   accepted, stored as given: upper mixed lead_ws trail_ws inner_ws trail_nl
+\*   refused: p0x p0X split_pair odd0 nonascii
+SigSpells == {"upper", "mixed", "p0x", "p0X", "lead_ws", "trail_ws", "inner_ws", "trail_nl",
+              "split_pair", "odd0", "nonascii"}
+UpperC(c) == IF c >= 97 /\ c <= 122 THEN c - 32 ELSE c
+SpellSig(id, sp) ==
+    LET g == GoodSig(id) IN
+    CASE sp = "upper"      -> [i \in 1..Len(g) |-> UpperC(g[i])]
+      [] sp = "mixed"      -> [g EXCEPT ![10] = UpperC(g[10])]
+      [] sp = "p0x"        -> <<48, 120>> \o g
+      [] sp = "p0X"        -> <<48, 88>> \o g
+      [] sp = "lead_ws"    -> <<32>> \o g
+      [] sp = "trail_ws"   -> g \o <<9>>
+      [] sp = "inner_ws"   -> SubSeq(g, 1, 4) \o <<32>> \o SubSeq(g, 5, Len(g))
+      [] sp = "trail_nl"   -> g \o <<10>>
+      [] sp = "split_pair" -> SubSeq(g, 1, 3) \o <<32>> \o SubSeq(g, 4, Len(g))
+      [] sp = "odd0"       -> g \o <<48>>
+      [] sp = "nonascii"   -> [g EXCEPT ![1] = 1635]                  \* ARABIC-INDIC DIGIT THREE
+
 ---------------------------------------------------------------------------
 (* Sys: the code's own parsing, as read from the Python sources            *)
 Fail == <<-1>>
@@ -89,15 +136,24 @@ PyFromHex(s) ==
          ELSE Fail
 \* is_hex_string_of_length(hash, 32) and len(hash) == 64
 SysHashOK(h) == h.kind = "str" /\ PyFromHex(h.s) # Fail /\ Len(PyFromHex(h.s)) = HL /\ Len(h.s) = 2 * HL
-\* hex_or_decimal_string_to_int on the texts above (sign, digits); -2 = ValueError
+\* hex_or_decimal_string_to_int on the plain texts above (sign, digits); -2 = ValueError
 PyInt(s, hex) ==
     LET neg == s # <<>> /\ s[1] = 45
         body == IF neg THEN Tail(s) ELSE s IN
     IF hex THEN (IF Len(s) > 2 /\ AllHex(SubSeq(s, 3, Len(s))) THEN HexNum(SubSeq(s, 3, Len(s))) ELSE -2)
     ELSE IF body # <<>> /\ AllDigits(body) THEN (IF neg THEN 0 - DecVal(body) ELSE DecVal(body))
     ELSE -2
+\* ... and on the unusual spellings (FreeIters): what Python's int(text, 16 if text.startswith("0x")
+\* else 10) does with each member -- blanks stripped at both ends, optional sign, digits of any
+\* Unicode decimal script, single underscores between digits; " 0x102" is parsed in base 10
+SpelledIter(cls) ==
+    CASE cls \in {"sp_lead_ws", "sp_trail_ws", "sp_trail_nl", "sp_plus", "sp_underscore", "sp_nonascii",
+                  "sp_hex_trail_ws", "sp_hex_underscore"} -> 258
+      [] cls = "sp_neg_zero" -> 0
+      [] cls \in {"sp_inner_ws", "sp_hex_lead_ws"} -> -2
 SysIter(it) ==      \* the int the constructor ends up with, or -2 when it raises
-    LET v == IF it.form = "str"
+    LET v == IF it \in FreeIters THEN SpelledIter(it.cls)
+             ELSE IF it.form = "str"
              THEN PyInt(it.s, Len(it.s) >= 2 /\ it.s[1] = 48 /\ it.s[2] = 120)
              ELSE IF it.form = "int" THEN it.val ELSE -2 IN
     IF v < 0 \/ v >= 65536 THEN -2 ELSE v
@@ -148,7 +204,9 @@ BuildEvent(h, it, ss) ==
 H0 == Txt("lower", <<97, 49, 98, 50>>)
 I0 == It("int_mid", "int", 258, <<>>)
 DoBuild(h, it, m, mut, p, kind) ==
-    LET ss == [i \in 1..m |-> IF mut = "sig" /\ i = p THEN BadSig(16 + i, kind) ELSE GoodSig(16 + i)]
+    LET ss == [i \in 1..m |-> IF mut = "sig" /\ i = p THEN BadSig(16 + i, kind)
+                              ELSE IF mut = "sigspell" /\ i = p THEN SpellSig(26 + i, kind)
+                              ELSE GoodSig(16 + i)]
         e  == BuildEvent(h, it, ss) IN
     /\ hash' = h /\ iter' = it /\ sigs' = ss
     /\ env' = [env EXCEPT !.hcls = h.cls, !.icls = it.cls, !.m = m, !.mut = mut, !.at = p,
@@ -161,20 +219,29 @@ BuildBadHash == \E h \in BadHashes, it \in GoodIters, m \in {0, 1} : DoBuild(h, 
 BuildBadIter == \E h \in GoodHashes, it \in BadIters, m \in {0, 1} : DoBuild(h, it, m, "iter", 0, "?")
 BuildBadSig  == \E m \in 1..MaxSigs, kind \in SigKinds : \E p \in 1..m, h \in {H0, Txt("upper", <<65, 49, 66, 50>>)} :
                    DoBuild(h, I0, m, "sig", p, kind)
-Build == pc = "build" /\ (BuildGood \/ BuildBadHash \/ BuildBadIter \/ BuildBadSig)
+\* one signature of the file / the iteration text in an unusual spelling
+BuildSpelledSig  == \E m \in 1..MaxSigs, sp \in SigSpells : \E p \in 1..m : DoBuild(H0, I0, m, "sigspell", p, sp)
+BuildSpelledIter == \E it \in FreeIters, m \in {0, 1} : DoBuild(H0, it, m, "iterspell", 0, "?")
+Build == pc = "build" /\ (BuildGood \/ BuildBadHash \/ BuildBadIter \/ BuildBadSig
+                          \/ BuildSpelledSig \/ BuildSpelledIter)
 
 \* authorize with a file the loader refuses: nothing is sent, the command fails
 RefusedAuthorize ==
-    /\ pc = "refused" /\ Emit([k |-> "outcome", authorized |-> "f"])
+    /\ pc = "refused" /\ Emit([k |-> "outcome", authorized |-> "f", exc |-> "ValueError"])
     /\ pc' = "done" /\ UNCHANGED <<env, hash, iter, sigs>>
 
 File(ss) == [hash |-> Lower(hash.s), iter |-> SysIter(iter), sigs |-> ss]
 \* signapp key / eth / manual on the file
 Tool ==
     /\ pc = "tool"
-    /\ \E t \in Tools :
+    /\ \E t \in Tools, sp \in SigSpells :
          /\ (t # "none") => Len(sigs) < MaxSigs
-         /\ env' = [env EXCEPT !.tool = t]
+         \* deviations are single: a spelled file only meets none / key; a spelled manual signature
+         \* only the canonical base
+         /\ (env.mut # "none") => t \in {"none", "key"}
+         /\ (t = "manual_spell") => (hash = H0 /\ iter = I0)
+         /\ (t # "manual_spell") => sp = CHOOSE x \in SigSpells : TRUE
+         /\ env' = [env EXCEPT !.tool = t, !.kind = IF t = "manual_spell" THEN sp ELSE @]
          /\ IF t = "none" THEN UNCHANGED <<sigs, obs, verdict, hist>>
             ELSE IF t \in {"key", "eth"} THEN
                  LET s == GoodSig(64 + Len(sigs))
@@ -184,6 +251,7 @@ Tool ==
                           file |-> File(Append(sigs, s)),
                           verifies |-> IF d = obs.digest THEN "t" ELSE "f"])
             ELSE LET s == IF t = "manual_ok" THEN GoodSig(96 + Len(sigs))
+                          ELSE IF t = "manual_spell" THEN SpellSig(96 + 11 + Len(sigs), sp)
                           ELSE BadSig(96 + Len(sigs), "trail")
                      ok == SysSigOK(s) IN
                  /\ sigs' = IF ok THEN Append(sigs, s) ELSE sigs
@@ -229,7 +297,10 @@ SendSig ==
 
 Finish ==
     /\ pc = "finish"
-    /\ Emit([k |-> "outcome", authorized |-> IF obs.done THEN "t" ELSE "f"])
+    \* "Not enough signatures" is an HSM2DongleError; a device status word an HSM2DongleErrorResult
+    /\ Emit([k |-> "outcome", authorized |-> IF obs.done THEN "t" ELSE "f",
+             exc |-> IF obs.done THEN "none"
+                     ELSE IF obs.sigver = "err" THEN "HSM2DongleErrorResult" ELSE "HSM2DongleError"])
     /\ pc' = "done" /\ UNCHANGED <<env, hash, iter, sigs>>
 
 Next == Build \/ RefusedAuthorize \/ Tool \/ RoundTrip \/ SigVer \/ SendSig \/ Finish
@@ -250,6 +321,7 @@ RoundTripP          == Clause("RoundTrip") /\ Clause("RoundTripStable")
 ExchangeShape       == Clause("SigVerFirst") /\ Clause("SignaturesInOrder")
                        /\ Clause("NothingAfterSuccess") /\ Clause("SentWithoutAuthorization")
 AuthorizedIff       == Clause("AuthorizedIff") /\ Clause("AllSentBeforeFailing")
+DocumentedFailure   == Clause("DocumentedFailure")
 \* model-level restatement of the exchange clause on Env's own k (not through obs)
 AuthorizedIffK == Terminal /\ obs.st = "built" /\ env.cur = "below"
                     => (obs.done <=> env.k <= Len(sigs)) /\ (obs.done => obs.sent = 1 + env.k)
